@@ -283,8 +283,9 @@ class PrecipitateModel (PrecipitateBase):
             self.pData.xEqAlpha[self.pData.n], self.pData.xEqBeta[self.pData.n] = self._createLookupBinary(self.pData.temperature[self.pData.n])
             Y.xEqAlpha[0], Y.xEqBeta[0] = self.pData.xEqAlpha[self.pData.n], self.pData.xEqBeta[self.pData.n]
         else:
-            self.PSDXalpha = [None for p in range(len(self.phases))]
-            self.PSDXbeta = [None for p in range(len(self.phases))]
+            #Zero until the first successful growth rate calculation (same convention as when precipitates are unstable)
+            self.PSDXalpha = [np.zeros((self.PBM[p].bins + 1, self.numberOfElements)) for p in range(len(self.phases))]
+            self.PSDXbeta = [np.zeros((self.PBM[p].bins + 1, self.numberOfElements)) for p in range(len(self.phases))]
 
             #Set first index of eq composition
             for p in range(len(self.phases)):
